@@ -10,9 +10,10 @@ SLOT_KINDS = VALUE_KINDS | {"err", "empty", "none", "other"}
 def fnum(slot):
     f = slot.get("f")
     try:
-        return float(f)
+        x = float(f)
     except Exception:
         return None
+    return x if x == x and x not in (float("inf"), float("-inf")) else None
 
 
 def match_slot(exp, slot):
@@ -30,11 +31,17 @@ def match_slot(exp, slot):
     if k == "famq":
         return slot["k"] == "unit" and slot.get("group") == exp["fam"] and slot.get("index") == exp["idx"] and close(q_to_fraction(exp["q"]), fnum(slot))
     if k == "uterm":
-        if slot["k"] != "unit" or slot.get("u") != exp["u"]:
+        if exp.get("inv"):
+            if slot["k"] != "num":
+                return False
+        elif slot["k"] != "unit" or slot.get("u") != exp["u"]:
             return False
         x = fnum(slot)
         v = float(q_to_fraction(exp["mul"])) * (OZ_MG ** exp["oz"]) * (2.0 ** exp["e2"])
-        return x is not None and abs(x - v) <= 1e-9 * abs(v)
+        if "add" in exp:        # arithmetic: add + v, add - v (mul carries the sign) or add / v
+            a = float(q_to_fraction(exp["add"]))
+            v = (0.0 if v == 0 else a / v) if exp.get("inv") else a + v
+        return x is not None and abs(x - v) <= 1e-9 * max(abs(v), 1e-300)
     if k == "notunits":
         return slot["k"] in SLOT_KINDS and (slot["k"] != "unit" or slot.get("u") not in exp["us"])
     if k == "int":
